@@ -21,7 +21,15 @@ def float_between(min: float, max: float, numerator: float, denominator: float =
     else:
         fraction = numerator / denominator
         v = (1.0 - fraction) * min + fraction * max
-    return max if v > max else (min if v < min else v)
+    if v > max:
+        v = float(max)
+        if v > max:  # an int bound beyond 2**53 whose nearest float lies above it
+            v = math.nextafter(v, -math.inf)
+    elif v < min:
+        v = float(min)
+        if v < min:
+            v = math.nextafter(v, math.inf)
+    return v
 
 
 class RandomSource(abc.ABC):
